@@ -109,6 +109,89 @@ func genC19(w *bufio.Writer, tier string, rng *rand.Rand) {
 			}
 		})
 	}
+	// structured families with long dominator chains and slow convergence: paths with long-range
+	// shortcut and back edges, chains walked in both directions and entered at both ends, ladders,
+	// nested loops; 20 to 300 nodes, ids optionally permuted
+	for k := 0; k < pick(tier, 150, 4000); k++ {
+		n := 20 + rng.Intn(pick(tier, 120, 280))
+		g := make([][]int, n)
+		switch rng.Intn(5) {
+		case 0: // path plus a few long-range edges in either direction
+			for v := 0; v+1 < n; v++ {
+				g[v] = append(g[v], v+1)
+			}
+			for e := 0; e < 1+rng.Intn(4); e++ {
+				u, v := rng.Intn(n), rng.Intn(n)
+				g[u] = append(g[u], v)
+			}
+			if rng.Intn(2) == 0 {
+				g[0] = append(g[0], n-1)
+			}
+		case 1: // bidirectional chain 3..n-1 entered from both ends
+			g[0] = []int{1, 2}
+			g[1] = []int{3}
+			g[2] = []int{n - 1}
+			for v := 3; v < n; v++ {
+				if v+1 < n {
+					g[v] = append(g[v], v+1)
+				}
+				if v > 3 {
+					g[v] = append(g[v], v-1)
+				}
+			}
+		case 2: // ladder: two rails with rungs in random directions
+			h := n / 2
+			for i := 0; i+1 < h; i++ {
+				g[i] = append(g[i], i+1)
+				g[h+i] = append(g[h+i], h+i+1)
+			}
+			g[0] = append(g[0], h)
+			for i := 0; i < h; i++ {
+				switch rng.Intn(3) {
+				case 0:
+					g[i] = append(g[i], h+i)
+				case 1:
+					g[h+i] = append(g[h+i], i)
+				}
+			}
+		case 3: // nested loops: v -> v+1, and back edges from v to v - 2^j
+			for v := 0; v+1 < n; v++ {
+				g[v] = append(g[v], v+1)
+			}
+			for v := 1; v < n; v++ {
+				if rng.Intn(3) == 0 {
+					back := v - (1 << uint(rng.Intn(6)))
+					if back < 0 {
+						back = 0
+					}
+					g[v] = append(g[v], back)
+				}
+			}
+		default: // reverse-numbered path with forward jumps (post-order numbering far from the id order)
+			for v := n - 1; v > 0; v-- {
+				g[v] = append(g[v], v-1)
+			}
+			for e := 0; e < 3; e++ {
+				u := 1 + rng.Intn(n-1)
+				g[u] = append(g[u], rng.Intn(u))
+			}
+		}
+		root := 0
+		if g[0] == nil || len(g[0]) == 0 {
+			root = n - 1
+		}
+		if rng.Intn(3) == 0 {
+			perm := rng.Perm(n)
+			h := make([][]int, n)
+			for u := range g {
+				for _, v := range g[u] {
+					h[perm[u]] = append(h[perm[u]], perm[v])
+				}
+			}
+			g, root = h, perm[root]
+		}
+		emit(g, root)
+	}
 	nr := pick(tier, 2500, 80000)
 	for k := 0; k < nr; k++ {
 		n := 2 + rng.Intn(39)
